@@ -52,6 +52,19 @@ def run(ck):
         for a in box(sym, ka):
             progs.append({"driver": "charges", "tid": tids(), "what": "assoc", "sym": sym, "k": ka,
                           "as": [list(a) if isinstance(a, tuple) else [a, 0]]})
+    if not q:
+        # the unbounded part: TLAPS proves the U1 / U1U1 group laws for all integers
+        import re, shutil, subprocess, tempfile
+        work = tempfile.mkdtemp(prefix="tlaps", dir=ck.scratch)
+        shutil.copy(os.path.join(runner.SPEC, "ChargesProofs.tla"), work)
+        p = subprocess.run(["tlapm", "--toolbox", "0", "0", "ChargesProofs.tla"], cwd=work, capture_output=True, text=True, timeout=900)
+        out = p.stdout + p.stderr
+        m = re.search(r"All (\d+) obligations? proved", out)
+        ck.cov["obligations"] = int(m.group(1)) if m else len(re.findall(r"@!!type:obligation", out))
+        ck.cov["discharged"] = int(m.group(1)) if m else len(re.findall(r"@!!status:proved", out))
+        ck.cov["checker_cmd"] = "tlapm ChargesProofs.tla"
+        if not m:
+            ck.problems.append("TLAPS did not prove ChargesProofs.tla:\n" + out[-1500:])
     ck.cov["exhaustive"] = True
     ck.cov["cases_exported_by_tlc"] = ncases
     ck.cov["rule"] = ("TLC enumerates every index structure (rank, dual pattern, non-empty subset of the charge pool per index, "
